@@ -430,7 +430,7 @@ Qed.
    statement was executed, Debug on and a printable response read without fault, the body the transport handed
    out is closed by the dump and once more by the deferred Close (the call still succeeds and nothing leaks) *)
 Lemma release_once_needs_resp_close_held :
-  let fx := mkfx true true true true false in
+  let fx := mkfx true true true true false true in
   let sc := mksc false ANone false (TRespond None RespRead) true in
   let c := call fx (compile fx 0 [mkfp true true [true]]) sc in
   dump_closes_twice sc = true /\
@@ -447,7 +447,7 @@ Proof. vm_compute. repeat split. Qed.
 (* off that path the code before the repair closed the body exactly once too: the repair changes nothing else *)
 Lemma resp_closes_of_without_close_held debug r :
   debug && (printable (rb_ctype r) && negb (faulty (rb_fault r))) = false ->
-  resp_closes_of (mkfx true true true true false) debug r = 1.
+  resp_closes_of (mkfx true true true true false true) debug r = 1.
 Proof.
   unfold resp_closes_of. cbn [fx_resp_close_first fx_resp_close_held].
   destruct debug; destruct (printable (rb_ctype r)); destruct (faulty (rb_fault r)); cbn; intros H; try reflexivity; discriminate.
@@ -456,7 +456,7 @@ Qed.
 (* the order in Submit matters: were the Close deferred only after the Debug dump, a response body failing
    under the dump would never be closed (however the deferred function picks the body) *)
 Lemma release_needs_resp_close_first :
-  let fx := mkfx true true true false true in
+  let fx := mkfx true true true false true true in
   let c := call fx (compile fx 0 [mkfp true true [true]])
                 (mksc false ANone false (TRespond None (mkrb CtConsumed false RFLate)) true) in
   c_result c = RFail /\ c_resp_opened c = 1 /\ c_resp_closes c = 0 /\ released c = false.
@@ -468,7 +468,7 @@ Definition one_file : list fileprog := [mkfp false true [true; true]].
 (* F-C12-1: the auth writer fails without asking for the body; no late-error close: the goroutine waits
    for ever at its first write and the file stays open *)
 Lemma release_needs_late_close :
-  let fx := mkfx true false true true true in
+  let fx := mkfx true false true true true true in
   let c := call fx (compile fx 0 one_file) (mksc false (AFail false) false (TFail 0) false) in
   released c = false /\ w_done (c_w c) = false /\ w_file_closes (c_w c) = 0.
 Proof. vm_compute. repeat split. Qed.
@@ -476,20 +476,20 @@ Proof. vm_compute. repeat split. Qed.
 (* F-C12-2: one form field and one file, the transport fails before reading: the write of the field fails,
    the goroutine returns before the deferred function was registered: the file stays open *)
 Lemma release_needs_defer_first :
-  let fx := mkfx false true true true true in
+  let fx := mkfx false true true true true true in
   let c := call fx (compile fx 1 one_file) (mksc false ANone false (TFail 0) false) in
   released c = false /\ w_done (c_w c) = true /\ w_file_closes (c_w c) = 0.
 Proof. vm_compute. repeat split. Qed.
 
 (* ... while without the form field the same scenario releases the file, as observed on the code *)
 Lemma defer_late_without_fields_ok :
-  let fx := mkfx false true true true true in
+  let fx := mkfx false true true true true true in
   released (call fx (compile fx 0 one_file) (mksc false ANone false (TFail 0) false)) = true.
 Proof. vm_compute. reflexivity. Qed.
 
 (* F-C12-4: the parameter writer fails after handing files over *)
 Lemma release_needs_param_close :
-  let fx := mkfx true true false true true in
+  let fx := mkfx true true false true true true in
   released (call fx (compile fx 0 one_file) (mksc true ANone false (TFail 0) false)) = false.
 Proof. vm_compute. reflexivity. Qed.
 
@@ -793,53 +793,57 @@ Proof.
   - discriminate.
 Qed.
 
-Lemma file_ops_lower_fails f : src_fails_visibly f = true -> has_fail (file_ops (lower f)) = true.
+Lemma file_ops_lower_fails f : src_fails f = true -> has_fail (file_ops (lower f)) = true.
 Proof.
-  unfold src_fails_visibly, sniff_swallowed, src_fails, src_reads, lower, lower_with.
+  unfold src_fails, src_reads, lower, lower_with.
   destruct f as [decl sn chunks wd once]; cbn [sf_declared sf_sniff sf_chunks sf_with_data sf_once].
-  intros Hv. apply andb_prop in Hv. destruct Hv as [H Hs]. revert H.
   destruct decl.
   - cbn [app]. intros H. unfold file_ops. cbn [fp_declared fp_chunks app].
     change (OWrite Abort :: copy_ops (lower_chunks_with is_eof wd chunks) ++ [OEndCopy])
       with ([OWrite Abort] ++ copy_ops (lower_chunks_with is_eof wd chunks) ++ [OEndCopy]).
     rewrite !has_fail_app. rewrite (has_fail_copy_ops _ (lower_chunks_failure wd chunks H)).
     cbn. reflexivity.
-  - cbn [app first_stop]. destruct sn; cbn [is_failure]; intros H.
+  - cbn [app first_stop]. destruct sn; cbn [is_failure is_eof]; intros H.
     + unfold file_ops. cbn [fp_declared fp_sniff_ok fp_chunks].
       rewrite !has_fail_app. rewrite (has_fail_copy_ops _ (lower_chunks_failure wd chunks H)).
       cbn. reflexivity.
     + discriminate.
-    + destruct once; [discriminate Hs|]. reflexivity.
+    + reflexivity.          (* io.ErrUnexpectedEOF inside the sniffing window: logClose, return - sticky or not *)
     + reflexivity.
 Qed.
 
 Lemma has_fail_files files :
-  existsb src_fails_visibly files = true -> has_fail (flat_map file_ops (map lower files)) = true.
+  existsb src_fails files = true -> has_fail (flat_map file_ops (map lower files)) = true.
 Proof.
   induction files as [|f r IH]; cbn [existsb map flat_map]; intros H; [discriminate|].
-  rewrite has_fail_app. destruct (src_fails_visibly f) eqn:E.
+  rewrite has_fail_app. destruct (src_fails f) eqn:E.
   - now rewrite (file_ops_lower_fails f E).
   - cbn [orb] in H. rewrite (IH H). apply orb_true_r.
 Qed.
 
 Lemma has_fail_compile fx nv files :
-  existsb src_fails_visibly files = true -> has_fail (compile fx nv (map lower files)) = true.
+  existsb src_fails files = true -> has_fail (compile fx nv (map lower files)) = true.
 Proof.
   intros H. unfold compile. rewrite !has_fail_app. rewrite (has_fail_files files H).
   rewrite !orb_true_r. reflexivity.
 Qed.
 
-(* whatever value a source fails with, at the sniff or at any Read of the copy, with or without bytes next to the
-   error: the call is not a success when the body is consumed to its end *)
+Lemma lower_fx_fixed fx : fx_sniff_eof_only fx = true -> lower_fx fx = lower.
+Proof. intros H. unfold lower_fx, ends_sniff, lower. now rewrite H. Qed.
+
+(* whatever value a source fails with, inside the sniffing window or at any Read of the copy, with or without bytes
+   next to the error, sticky or reported once: the call is not a success when the body is consumed to its end *)
 Theorem upload_failure_any_error_value fx nv files sc :
-  existsb src_fails_visibly files = true -> sc_param_err sc = false ->
+  fx_sniff_eof_only fx = true ->
+  existsb src_fails files = true -> sc_param_err sc = false ->
   (match sc_auth sc with
    | AOk true | AFail true => True
    | _ => sc_debug sc = true \/ exists r, sc_transport sc = TRespond None r
    end) ->
-  c_result (call fx (compile fx nv (map lower files)) sc) = RFail.
+  c_result (call fx (compile fx nv (map (lower_fx fx) files)) sc) = RFail.
 Proof.
-  intros H Hp Hc. apply upload_failure_is_error; [now apply has_fail_compile|assumption|assumption].
+  intros Hfx H Hp Hc. rewrite (lower_fx_fixed fx Hfx).
+  apply upload_failure_is_error; [now apply has_fail_compile|assumption|assumption].
 Qed.
 
 (* a source that ends (io.EOF, early or not) without any failing Read is no failing source for the model either *)
@@ -848,28 +852,69 @@ Proof.
   unfold src_fails, src_reads, lower, lower_with, fp_fails.
   destruct f as [decl sn chunks wd once]; cbn [sf_declared sf_sniff sf_chunks sf_with_data sf_once]. destruct decl.
   - cbn [app fp_declared fp_sniff_ok fp_chunks negb andb orb]. apply lower_chunks_no_failure.
-  - cbn [app first_stop]. destruct sn; cbn [is_failure]; intros H; cbn [fp_declared fp_sniff_ok fp_chunks negb andb orb].
+  - cbn [app first_stop]. destruct sn; cbn [is_failure is_eof]; intros H; cbn [fp_declared fp_sniff_ok fp_chunks negb andb orb].
     + now apply lower_chunks_no_failure.
     + destruct once; reflexivity.
     + discriminate.
     + discriminate.
 Qed.
 
-(* F-C12-6: the restriction to visible failures is needed. A source that reports io.ErrUnexpectedEOF once inside the sniffing window
-   and io.EOF afterwards is a failing source, its body is consumed to the end, and the call succeeds *)
-Theorem upload_failure_refuted_for_truncation_once_inside_sniff_window : exists f sc,
+(* F-C12-6: the repair is needed. With the sniffing window filled by io.ReadFull (sniff_unrepaired) a source that reports
+   io.ErrUnexpectedEOF once inside the window and io.EOF afterwards is a failing source, its body is consumed to the end,
+   and the call succeeds; with the repair the same call fails *)
+Theorem upload_failure_refuted_without_sniff_eof_only : exists f sc,
   src_fails f = true /\ sniff_swallowed f = true /\ sc_param_err sc = false /\
   (exists r, sc_transport sc = TRespond None r) /\
-  c_result (call all_fixed (compile all_fixed 0 (map lower [f])) sc) = ROk.
+  c_result (call sniff_unrepaired (compile sniff_unrepaired 0 (map (lower_fx sniff_unrepaired) [f])) sc) = ROk /\
+  c_result (call all_fixed (compile all_fixed 0 (map (lower_fx all_fixed) [f])) sc) = RFail.
 Proof.
   exists (mksf false RdTrunc [RdOk; RdOk] false true), (mksc false ANone false (TRespond None RespRead) false).
   vm_compute. repeat split; try reflexivity. now exists RespRead.
 Qed.
 
-(* the test of the sniffing ReadFull must not be applied to the copy: with a truncated stream taken for its end a
+(* apart from that one case the code before the repair reported every failing source as well: a sticky
+   io.ErrUnexpectedEOF inside the window met the copy again *)
+Theorem upload_failure_before_sniff_repair fx nv files sc :
+  existsb (fun f => src_fails f && negb (sniff_swallowed f)) files = true -> sc_param_err sc = false ->
+  (match sc_auth sc with
+   | AOk true | AFail true => True
+   | _ => sc_debug sc = true \/ exists r, sc_transport sc = TRespond None r
+   end) ->
+  c_result (call fx (compile fx nv (map (lower_fx fx) files)) sc) = RFail.
+Proof.
+  intros H Hp Hc. apply upload_failure_is_error; [|assumption|assumption].
+  unfold compile. rewrite !has_fail_app.
+  assert (Hf : has_fail (flat_map file_ops (map (lower_fx fx) files)) = true).
+  { clear Hp Hc. induction files as [|f r IH]; cbn [existsb map flat_map] in *; [discriminate|].
+    rewrite has_fail_app. destruct (src_fails f && negb (sniff_swallowed f)) eqn:E.
+    - apply andb_prop in E. destruct E as [E1 E2].
+      destruct (fx_sniff_eof_only fx) eqn:Efx.
+      + rewrite (lower_fx_fixed fx Efx). now rewrite (file_ops_lower_fails f E1).
+      + replace (has_fail (file_ops (lower_fx fx f))) with true; [reflexivity|].
+        unfold lower_fx, ends_sniff. rewrite Efx.
+        revert E1 E2. unfold sniff_swallowed, src_fails, src_reads, lower_with.
+        destruct f as [decl sn chunks wd once]; cbn [sf_declared sf_sniff sf_chunks sf_with_data sf_once].
+        destruct decl.
+        * cbn [app]. intros H1 _. unfold file_ops. cbn [fp_declared fp_chunks app].
+          change (OWrite Abort :: copy_ops (lower_chunks_with is_eof wd chunks) ++ [OEndCopy])
+            with ([OWrite Abort] ++ copy_ops (lower_chunks_with is_eof wd chunks) ++ [OEndCopy]).
+          rewrite !has_fail_app. rewrite (has_fail_copy_ops _ (lower_chunks_failure wd chunks H1)).
+          cbn. reflexivity.
+        * cbn [app first_stop negb andb]. destruct sn; cbn [is_failure is_eof_or_trunc]; intros H1 H2.
+          -- unfold file_ops. cbn [fp_declared fp_sniff_ok fp_chunks].
+             rewrite !has_fail_app. rewrite (has_fail_copy_ops _ (lower_chunks_failure wd chunks H1)).
+             cbn. reflexivity.
+          -- discriminate.
+          -- destruct once; [discriminate H2|]. reflexivity.
+          -- reflexivity.
+    - cbn [orb] in H. rewrite (IH H). apply orb_true_r. }
+  rewrite Hf. rewrite !orb_true_r. reflexivity.
+Qed.
+
+(* the old test of the sniffing ReadFull must not be applied to the copy: with a truncated stream taken for its end a
    source failing with io.ErrUnexpectedEOF in the middle of the copy is answered as a success *)
 Theorem upload_failure_refuted_if_truncation_is_benign : exists files sc,
-  existsb src_fails_visibly files = true /\ sc_param_err sc = false /\
+  existsb src_fails files = true /\ sc_param_err sc = false /\
   (exists r, sc_transport sc = TRespond None r) /\
   c_result (call all_fixed (compile all_fixed 0 (map lower_trunc_benign files)) sc) = ROk /\
   c_result (call all_fixed (compile all_fixed 0 (map lower files)) sc) = RFail.
